@@ -80,8 +80,8 @@ def gen(rng, tier, i):
                 mode = rng.choice([0, 1])
                 pairs.append({'kind': 'dataset', 'mode': mode, 'j': rng.randrange(n_sets), 'per_lane': [rng.randrange(n_sets) for _ in range(sims)], 'cls': rng.choice(['cpu', 'gpu'])})
     case['pairs'] = pairs
-    lsims = rng.choice([1, 3, 8, 9, 13, 16, 20, 33])
-    n2 = rng.choice([lsims, lsims + 1, lsims + 8, 24, 40, 64, 65])
+    lsims = rng.choice([1, 3, 8, 9, 13, 16, 20, 33, 300])
+    n2 = rng.choice([lsims, lsims + 1, lsims + 8, 24, 40, 64, 65, 257])
     perm = list(range(n2)); rng.shuffle(perm)
     case['logic'] = {'m': rng.choice([2, 4, 8]), 'sims': lsims, 'vals': [rng.randrange(8) for _ in range(rng.randint(3, 23))],
                      'sims2': n2, 'lane_map': [perm[l] if l < n2 else None for l in range(lsims)], 'cycles': rng.choice([1, 1, 2, 3])}
